@@ -22,14 +22,17 @@ import (
 	"time"
 	"unsafe"
 
+	"github.com/tencent/goom/arg"
+	"github.com/tencent/goom/internal/bytecode/memory"
 	"github.com/tencent/goom/internal/zzverif/vh"
 )
 
 type c11Op struct {
 	kind string // mock | chk | reset
 	f    int
-	rk   string // ret | cb | cbo
+	rk   string // ret | tab | tin | cb | cbo
 	v    int
+	name bool // mock BY NAME: ExportFunc(name).As(sig) instead of Func(value)
 }
 
 type c11Thread struct {
@@ -43,11 +46,12 @@ type c11Round struct {
 	debug   bool
 	k       int
 	neigh   int
+	plh     map[int]int // target -> index of the origin placeholder variable it uses (default: its own)
 	threads []*c11Thread // S first (if present), then builders, then callers
 }
 
 func c11Parse(toks []string) (*c11Round, error) {
-	r := &c11Round{k: 1}
+	r := &c11Round{k: 1, plh: map[int]int{}}
 	byName := map[string]*c11Thread{}
 	segs := [][]string{{}}
 	for _, t := range toks[1:] {
@@ -82,6 +86,18 @@ func c11Parse(toks []string) (*c11Round, error) {
 			return nil, fmt.Errorf("short segment")
 		}
 		name := s[0]
+		if name == "P" { // P <target> <placeholder index>
+			if len(s) != 3 {
+				return nil, fmt.Errorf("bad P")
+			}
+			f, e1 := strconv.Atoi(s[1])
+			p, e2 := strconv.Atoi(s[2])
+			if e1 != nil || e2 != nil || f < 0 || f >= len(c11Targets) || p < 0 || p >= len(c11Plh) {
+				return nil, fmt.Errorf("bad P")
+			}
+			r.plh[f] = p
+			continue
+		}
 		if name == "N" {
 			n, err := strconv.Atoi(s[1])
 			if err != nil {
@@ -105,17 +121,26 @@ func c11Parse(toks []string) (*c11Round, error) {
 				}
 				th.targets = append(th.targets, n)
 			}
-		case s[1] == "mock":
+		case s[1] == "ext": // ext <f>: When.Matches(...) on the mock created by the last `ret` of f
+			if len(s) != 3 {
+				return nil, fmt.Errorf("bad ext")
+			}
+			f, e1 := strconv.Atoi(s[2])
+			if e1 != nil || f < 0 || f >= len(c11Targets) {
+				return nil, fmt.Errorf("bad ext")
+			}
+			th.ops = append(th.ops, c11Op{kind: "ext", f: f})
+		case s[1] == "mock" || s[1] == "mockn":
 			if len(s) != 6 {
 				return nil, fmt.Errorf("bad mock")
 			}
 			f, e1 := strconv.Atoi(s[2])
 			v, e2 := strconv.Atoi(s[4])
-			if e1 != nil || e2 != nil || f < 0 || f >= len(c11Targets)+c11NV || (s[3] != "ret" && s[3] != "cb" && s[3] != "cbo" && s[3] != "tab") ||
-				(f >= len(c11Targets) && (s[3] != "tab" || name[0] != 'S')) {
+			if e1 != nil || e2 != nil || f < 0 || f >= len(c11Targets)+c11NV || (s[3] != "ret" && s[3] != "cb" && s[3] != "cbo" && s[3] != "tab" && s[3] != "tin") ||
+				(f >= len(c11Targets) && (s[3] != "tab" || name[0] != 'S' || s[1] != "mock")) {
 				return nil, fmt.Errorf("bad mock")
 			}
-			th.ops = append(th.ops, c11Op{kind: "mock", f: f, rk: s[3], v: v})
+			th.ops = append(th.ops, c11Op{kind: "mock", f: f, rk: s[3], v: v, name: s[1] == "mockn"})
 			found := false
 			for _, x := range th.targets {
 				found = found || x == f
@@ -140,25 +165,58 @@ type c11Ev struct {
 	start, end int64
 }
 
-func c11Mock(b *Builder, op c11Op) {
+const c11Pkg = "github.com/tencent/goom"
+
+// c11B is one builder goroutine's state: the builder and the *When handles of its plain Return mocks (for `ext`)
+type c11B struct {
+	b     *Builder
+	whens map[int]*When
+	retv  map[int]int
+	plh   map[int]int
+}
+
+func (cb *c11B) mock(op c11Op) {
+	b := cb.b
 	if op.f >= len(c11Targets) { // variadic steady target: table keyed on fixed parameters + variadic elements
 		c11VarMock(b, op.f-len(c11Targets), op.v)
 		return
 	}
-	f := c11Targets[op.f]
+	var m ExportedMocker
+	if op.name { // addressed by name: symbol table lookup (unexports2.FindFuncByName) on every operation
+		m = b.Pkg(c11Pkg).ExportFunc(fmt.Sprintf("c11T%02d", op.f)).As(func(int) int { return 0 })
+	} else {
+		m = b.Func(c11Targets[op.f])
+	}
+	delete(cb.whens, op.f)
 	switch op.rk {
 	case "ret":
-		b.Func(f).Return(op.v)
+		cb.whens[op.f] = m.Return(op.v)
+		cb.retv[op.f] = op.v
 	case "tab":
-		b.Func(f).Return(op.v).When(1).Return(op.v + 1).When(2).Return(op.v + 2)
+		m.Return(op.v).When(1).Return(op.v + 1).When(2).Return(op.v + 2)
+	case "tin":
+		m.Return(op.v).In(1, 2).Return(op.v + 5)
 	case "cb":
 		k := op.v
-		b.Func(f).Apply(func(a int) int { return a + k })
+		m.Apply(func(a int) int { return a + k })
 	case "cbo":
 		k := op.v
-		o := c11Plh[op.f]
-		b.Func(f).Origin(o).Apply(func(a int) int { return (*o)(a) + k })
+		pi, ok := cb.plh[op.f]
+		if !ok {
+			pi = op.f
+		}
+		o := c11Plh[pi]
+		m.Origin(o).Apply(func(a int) int { return (*o)(a) + k })
 	}
+}
+
+// ext re-stubs without re-applying: a batch of conditions is added to the existing mock (When.Matches)
+func (cb *c11B) ext(op c11Op) {
+	w := cb.whens[op.f]
+	if w == nil {
+		panic("ext without ret")
+	}
+	w.Matches(arg.Pair{Args: 1, Return: cb.retv[op.f] + 1}, arg.Pair{Args: 2, Return: cb.retv[op.f] + 2})
 }
 
 func c11Call(f int, a int) (res string) {
@@ -257,14 +315,23 @@ func TestVerifC11Child(t *testing.T) {
 			callers = append(callers, th)
 		}
 	}
+	// a raw write that CROSSES a page boundary (entry writes never do: entries are 32-byte aligned): identical bytes are
+	// written over 24 bytes straddling the first page boundary after target 0, through the real WriteTo / mProtectCrossPage
+	crossAt := ((c11Entry(0) + 4096) &^ 4095) - 11
+	crossBytes := append([]byte(nil), c11Raw(crossAt, 24)...)
+	if err := memory.WriteTo(crossAt, crossBytes); err != nil {
+		fmt.Println("OBS crosswrite-error")
+		return
+	}
 	if r.debug {
 		OpenDebug() // debug.go wraps every replacement in a logging MakeFunc (interceptDebugInfo)
 	}
 	sb := Create()
+	scb := &c11B{b: sb, whens: map[int]*When{}, retv: map[int]int{}, plh: r.plh}
 	if steady != nil {
 		for _, op := range steady.ops {
 			if op.kind == "mock" {
-				c11Mock(sb, op)
+				scb.mock(op)
 			}
 		}
 	}
@@ -291,18 +358,21 @@ func TestVerifC11Child(t *testing.T) {
 			ti := idx[th]
 			var out []string
 			b := Create()
+			cb := &c11B{b: b, whens: map[int]*When{}, retv: map[int]int{}, plh: r.plh}
 			barrier()
 			for _, op := range th.ops {
 				st := atomic.AddInt64(&c11Stamp, 1)
 				res := vh.Catch(func() string {
 					switch op.kind {
 					case "mock":
-						c11Mock(b, op)
+						cb.mock(op)
+					case "ext":
+						cb.ext(op)
 					case "reset":
 						b.Reset()
 					case "chk":
 						for _, f := range th.targets {
-							out = append(out, c11Call(f, 3))
+							out = append(out, c11Call(f, 3), c11Call(f, 1)) // a default-hitting and a table-hitting argument
 						}
 					}
 					return ""
@@ -461,30 +531,46 @@ func TestVerifC11Child(t *testing.T) {
 func TestVerifC11(t *testing.T) {
 	out := vh.OpenOut()
 	defer out.Close()
-	tmo := 60 * time.Second
+	tmo := 600 * time.Second // a round takes ~1-3 s; generous so that a loaded machine is not mistaken for a hang
 	for _, op := range vh.ReadOps() {
 		if len(op.Toks) == 0 || op.Toks[0] != "c11.round" {
 			continue
 		}
-		cmd := exec.Command(os.Args[0], "-test.run", "^TestVerifC11Child$", "-test.count=1")
-		cmd.Env = append(os.Environ(), "VERIF_C11_LINE="+op.Line, "GORACE=halt_on_error=0 exitcode=0")
 		var so, se bytes.Buffer
-		cmd.Stdout, cmd.Stderr = &so, &se
-		done := make(chan error, 1)
-		if err := cmd.Start(); err != nil {
-			out.Put(op.Idx, "infra:%v", err)
-			continue
-		}
-		go func() { done <- cmd.Wait() }()
 		var werr error
-		timedOut := false
-		select {
-		case werr = <-done:
-		case <-time.After(tmo):
-			cmd.Process.Kill()
-			<-done
-			timedOut = true
+		timedOut, retried := false, false
+		for attempt := 0; attempt < 2; attempt++ {
+			so.Reset()
+			se.Reset()
+			cmd := exec.Command(os.Args[0], "-test.run", "^TestVerifC11Child$", "-test.count=1", "-test.timeout=0")
+			env := []string{}
+			for _, e := range os.Environ() { // goom's own environment knobs must not leak into the rounds
+				if !strings.HasPrefix(e, "GOOM_") && !strings.HasPrefix(e, "GORACE=") {
+					env = append(env, e)
+				}
+			}
+			cmd.Env = append(env, "VERIF_C11_LINE="+op.Line, "GORACE=halt_on_error=0 exitcode=0")
+			cmd.Stdout, cmd.Stderr = &so, &se
+			done := make(chan error, 1)
+			if err := cmd.Start(); err != nil {
+				werr = err
+				break
+			}
+			go func() { done <- cmd.Wait() }()
+			timedOut = false
+			select {
+			case werr = <-done:
+			case <-time.After(tmo):
+				cmd.Process.Kill()
+				<-done
+				timedOut = true
+			}
+			if !timedOut { // only a timeout is re-run once: a crash or a wrong result of a concurrent round is evidence as it stands
+				break
+			}
+			retried = true
 		}
+		_ = retried
 		obs := ""
 		for _, l := range strings.Split(so.String(), "\n") {
 			if strings.HasPrefix(l, "OBS ") {
@@ -492,24 +578,35 @@ func TestVerifC11(t *testing.T) {
 			}
 		}
 		all := so.String() + se.String()
-		races := strings.Count(all, "WARNING: DATA RACE")
+		// race reports: only those with a frame in goom's own (non-probe) code count
+		races := 0
 		raceAt := ""
-		if races > 0 {
-			// first goom frame of the first report
-			for _, l := range strings.Split(all[strings.Index(all, "WARNING: DATA RACE"):], "\n") {
-				l = strings.TrimSpace(l)
-				if strings.HasPrefix(l, "github.com/tencent/goom") && !strings.Contains(l, "c11") {
-					raceAt = l
-					if i := strings.LastIndex(l, "("); i > 0 {
-						raceAt = l[:i]
+		for _, rep := range strings.Split(all, "WARNING: DATA RACE")[1:] {
+			if i := strings.Index(rep, "=================="); i >= 0 {
+				rep = rep[:i]
+			}
+			lines := strings.Split(rep, "\n")
+			at := ""
+			for i := 0; i+1 < len(lines); i++ {
+				fn, file := strings.TrimSpace(lines[i]), strings.TrimSpace(lines[i+1])
+				if strings.HasPrefix(fn, "github.com/tencent/goom") && !strings.Contains(file, "zz_verif") && !strings.Contains(file, "zzverif") {
+					at = fn
+					if j := strings.LastIndex(fn, "("); j > 0 {
+						at = fn[:j]
 					}
 					break
+				}
+			}
+			if at != "" {
+				races++
+				if raceAt == "" {
+					raceAt = at
 				}
 			}
 		}
 		switch {
 		case timedOut:
-			out.Put(op.Idx, "timeout ## races=%d raceat=%s", races, raceAt)
+			out.Put(op.Idx, "timeout ## races=%d raceat=%s retried=%v", races, raceAt, retried)
 		case obs == "":
 			sig := "exit"
 			if strings.Contains(all, "SIGSEGV") {
